@@ -54,7 +54,7 @@ def get_api(
         raise ValueError("No files found to analyse.")
 
     # Package name
-    package_name = root.stem
+    package_name = root.name
 
     # Get distribution data
     dist = distribution(package_name=package_name) or ""
